@@ -221,63 +221,80 @@ fn run(events: &[Ev], capacity: usize, gated: bool, eager: bool) -> Option<Outco
     })
 }
 
-/// next index vector in lexicographic order; false when wrapped around
-fn advance(idx: &mut [usize], base: usize) -> bool {
-    for p in (0..idx.len()).rev() {
-        idx[p] += 1;
-        if idx[p] < base {
-            return true;
+/// every event sequence of at most `max_len` events that is well-formed independently of the code under test:
+/// at most 3 calls, replies/abandons only for calls that exist and were not replied/abandoned before,
+/// at most one gate opening, at most one drop of the client handle (no call afterwards)
+fn scripts(max_len: usize) -> Vec<Vec<Ev>> {
+    fn go(cur: &mut Vec<Ev>, calls: usize, replied: u8, abandoned: u8, gate: bool, dropped: bool, max_len: usize, out: &mut Vec<Vec<Ev>>) {
+        if !cur.is_empty() {
+            out.push(cur.clone());
         }
-        idx[p] = 0;
+        if cur.len() == max_len {
+            return;
+        }
+        if calls < 3 && !dropped {
+            cur.push(Ev::Call);
+            go(cur, calls + 1, replied, abandoned, gate, dropped, max_len, out);
+            cur.pop();
+        }
+        for k in 0..calls {
+            if replied & (1 << k) == 0 && abandoned & (1 << k) == 0 {
+                cur.push(Ev::Reply(k));
+                go(cur, calls, replied | (1 << k), abandoned, gate, dropped, max_len, out);
+                cur.pop();
+                cur.push(Ev::Abandon(k));
+                go(cur, calls, replied, abandoned | (1 << k), gate, dropped, max_len, out);
+                cur.pop();
+            }
+        }
+        if !gate {
+            cur.push(Ev::OpenGate);
+            go(cur, calls, replied, abandoned, true, dropped, max_len, out);
+            cur.pop();
+        }
+        if !dropped && calls > 0 {
+            cur.push(Ev::DropClient);
+            go(cur, calls, replied, abandoned, gate, true, max_len, out);
+            cur.pop();
+        }
     }
-    false
+    let mut out = vec![];
+    go(&mut vec![], 0, 0, 0, false, false, max_len, &mut out);
+    out.retain(|s| s[0] == Ev::Call);
+    out.sort_by_key(|s| s.len());
+    out
 }
 
 #[test]
 fn wake_driven_equals_eager() {
     let rt = tokio::runtime::Builder::new_current_thread().enable_time().start_paused(true).build().unwrap();
     let _g = rt.enter();
-    let alphabet = [Ev::Call, Ev::Reply(0), Ev::Reply(1), Ev::Abandon(0), Ev::Abandon(1), Ev::OpenGate, Ev::DropClient];
-    let max_len = if std::env::var("VERIF_TIER").as_deref() == Ok("thorough") { 7 } else { 6 };
+    let max_len = if std::env::var("VERIF_TIER").as_deref() == Ok("thorough") { 8 } else { 7 };
     let mut evaluations = 0u64;
     let mut failures: Vec<String> = vec![];
-    'outer: for len in 1..=max_len {
-        let mut idx = vec![0usize; len];
-        loop {
-            let script: Vec<Ev> = idx.iter().map(|&i| alphabet[i]).collect();
-            // well-formedness that does not depend on the code: at most 2 calls, one gate opening, one client drop
-            let n_calls = script.iter().filter(|e| **e == Ev::Call).count();
-            if script[0] == Ev::Call && n_calls <= 2 && script.iter().filter(|e| **e == Ev::OpenGate).count() <= 1 && script.iter().filter(|e| **e == Ev::DropClient).count() <= 1 {
-                for capacity in [1usize, 2] {
-                    for gated in [false, true] {
-                        if !gated && script.contains(&Ev::OpenGate) {
-                            continue;
-                        }
-                        let (Some(eager), Some(driven)) = (run(&script, capacity, gated, true), run(&script, capacity, gated, false)) else { continue };
-                        evaluations += 1;
-                        if eager != driven {
-                            failures.push(format!(
-                                "C02: events {script:?}, in-flight maximum {capacity}, transport writable from the start {}: polled only when woken the system ends at {driven:?}, with unsolicited polls it ends at {eager:?}",
-                                !gated
-                            ));
-                            if failures.len() >= 3 {
-                                break 'outer;
-                            }
-                        }
+    'outer: for script in scripts(max_len) {
+        for capacity in [1usize, 2] {
+            for gated in [false, true] {
+                if !gated && script.contains(&Ev::OpenGate) {
+                    continue;
+                }
+                let (Some(eager), Some(driven)) = (run(&script, capacity, gated, true), run(&script, capacity, gated, false)) else { continue };
+                evaluations += 1;
+                if eager != driven {
+                    failures.push(format!(
+                        "C02: events {script:?}, in-flight maximum {capacity}, transport writable from the start {}: polled only when woken the system ends at {driven:?}, with unsolicited polls it ends at {eager:?}",
+                        !gated
+                    ));
+                    if failures.len() >= 3 {
+                        break 'outer;
                     }
                 }
             }
-            if !advance(&mut idx, alphabet.len()) {
-                break;
-            }
-        }
-        if !failures.is_empty() {
-            break;
         }
     }
     for f in &failures {
         println!("VERIF-FAIL {f}");
     }
-    println!("VERIF-BOUNDED client_wakeups evaluations={evaluations} bound=event sequences <= {max_len} over {{call, reply 0|1, abandon 0|1, transport becomes writable, last handle dropped}} x in-flight maximum 1|2 x writable from the start|not, each run wake-driven and eagerly");
+    println!("VERIF-BOUNDED client_wakeups evaluations={evaluations} bound=well-formed event sequences <= {max_len} over {{call (<= 3), reply k, abandon k, transport becomes writable, last handle dropped}} x in-flight maximum 1|2 x writable from the start|not, each run wake-driven and eagerly");
     assert!(failures.is_empty(), "{}", failures[0]);
 }
